@@ -456,6 +456,10 @@ def randomness(ctx):
         return ok, why
     for fn, node in reads:
         ok, why = label_use(fn, node)
+        if not ok and why in ('Lambda', 'GeneratorExp', 'ListComp', 'DictComp', 'Starred', 'Yield'):
+            # handed on inside a deferred or collected value: where it ends up is not followed
+            ctx.undecided('C18.random', 'the random order id in %s flows only into messages and the Transaction\'s order_id' % fn.qn, fn.site(node), 'order_id goes into a %s' % why)
+            continue
         ctx.require(ok, 'C18.random', 'the random order id in %s flows only into messages and the Transaction\'s order_id' % fn.qn, fn.site(node),
                     'order_id is used in a %s: results would depend on a random value' % why, key='C18.random|order_id|%s|%s' % (fn.qn, why.split(' ')[0]))
     # order_id parameter of Transaction is only stored
